@@ -10,7 +10,7 @@ import (
 // decodeData) and compares with a one-shot reference parse of the whole stream.
 
 //vp:prop C22
-//vp:bounds stream of 0..13 (quick) / 0..17 (thorough) free bytes, every split into <= 3 reads, maxMsgLength free in [4, 2^31); frame lengths are therefore <= 13 / 17 bytes
+//vp:bounds stream of 0..13 (quick) / 0..17 (thorough) free bytes, every split into <= 3 reads, maxMsgLength free in [4, 2^31); the connection buffer fresh or created with capacity 8 / 12 (standing for a long-lived buffer whose spare capacity is used up, so that it recycles space); frame lengths are therefore <= 13 / 17 bytes
 //vp:unwind 40
 //vp:maxvalues 20
 func vpH_C22_FramingChunks() {
@@ -26,7 +26,12 @@ func vpH_C22_FramingChunks() {
 	c2 := vpLen("cut2", c1, L)
 	chunks := [][]byte{s[:c1], s[c1:c2], s[c2:]}
 
+	// the connection buffer: fresh, or with little spare capacity (the state a
+	// long-lived connection is in once the buffer has to recycle or slide its space)
 	buf := &bytes.Buffer{}
+	if k := vpLen("bufferCapacity", 0, 2); k > 0 {
+		buf = bytes.NewBuffer(make([]byte, 0, 4+4*k))
+	}
 	var delivered [][]byte
 	var gotErr error
 	fed := 0
